@@ -49,9 +49,9 @@ Proof.
   unfold validate. intros Hs Hall. apply andb_true_iff. split.
   - rewrite forallb_forall in *. intros c Hin. specialize (Hall c Hin).
     unfold col_ok in Hall. split_andb Hall. rewrite Hi0, Hi. reflexivity.
-  - destruct fx; [|reflexivity]. rewrite (sortedb_keys_nodupb _ Hs). simpl.
+  - destruct fx; [|reflexivity]. unfold wf. rewrite (sortedb_keys_nodupb _ Hs). simpl.
     rewrite forallb_forall in *. intros c Hin. specialize (Hall c Hin). unfold col_ok in Hall. split_andb Hall.
-    rewrite Hi1. simpl. apply sortedb_keys_nodupb. exact Hall.
+    unfold c_info, c_nfts in *. rewrite Hi1. simpl. apply sortedb_keys_nodupb. exact Hall.
 Qed.
 
 Lemma nft_roundtrip fx s : invb s = true -> import fx (export s) = Some s.
@@ -65,32 +65,43 @@ Proof.
   - intros c Hin. rewrite forallb_forall in Hok. apply Hok. exact Hin.
 Qed.
 
-Lemma nft_export_validates_lemma s : invb s = true -> validate true (export s) = true.
+Lemma validate_split g : validate true g = validate false g && wf g.
+Proof. unfold validate. destruct (forallb (fun c => d_id_ok (c_info c) && forallb (fun n => n_ok (snd n)) (c_nfts c)) g); simpl; reflexivity. Qed.
+
+Lemma import_switch g : validate false g = true -> validate true g = true -> import false g = import true g.
+Proof. intros H1 H2. unfold import. rewrite H1, H2. reflexivity. Qed.
+
+Lemma nft_export_validates_lemma s : invb s = true -> validate false (export s) = true.
 Proof.
-  intros Hinv. pose proof (nft_roundtrip true s Hinv) as Hr. unfold import in Hr.
-  destruct (validate true (export s)); [reflexivity|discriminate].
+  intros Hinv. pose proof (nft_roundtrip false s Hinv) as Hr. unfold import in Hr.
+  destruct (validate false (export s)); [reflexivity|discriminate].
 Qed.
 
+Lemma nft_export_wellformed_lemma s : invb s = true -> wf (export s) = true.
+Proof.
+  intros Hinv. pose proof (nft_roundtrip true s Hinv) as Hr. unfold import in Hr.
+  destruct (validate true (export s)) eqn:E; [|discriminate]. rewrite validate_split in E.
+  apply andb_true_iff in E. tauto.
+Qed.
+
+Lemma nft_import_total_lemma s : invb s = true -> import false (export s) <> None.
+Proof. intros Hinv. rewrite (nft_roundtrip false s Hinv). discriminate. Qed.
+
 Lemma nft_export_fixpoint_lemma s :
-  invb s = true -> exists s', import true (export s) = Some s' /\ export s' = export s.
+  invb s = true -> exists s', import false (export s) = Some s' /\ export s' = export s.
 Proof. intros Hinv. exists s. split; [apply nft_roundtrip; exact Hinv|reflexivity]. Qed.
 
 Lemma nft_queries_preserved_lemma s :
-  invb s = true -> exists s', import true (export s) = Some s' /\ queries s' = queries s.
+  invb s = true -> exists s', import false (export s) = Some s' /\ queries s' = queries s.
 Proof. intros Hinv. exists s. split; [apply nft_roundtrip; exact Hinv|reflexivity]. Qed.
 
-(** the code as it was: ValidateGenesis looked neither at the creator of a class nor for repeated ids;
-    InitGenesis panics on both *)
-Lemma nft_import_total_refuted_lemma : exists g, validate false g = true /\ import false g = None.
+(** Remark (outside C12): a hand-made genesis with a repeated NFT id passes ValidateGenesis and makes
+    InitGenesis panic — the well-formedness is not validated by the code *)
+Lemma nft_handmade_genesis_can_panic_lemma : exists g, validate false g = true /\ wf g = false /\ import false g = None.
 Proof.
   exists [(1, ((0, true, 0, 0), [(1, (0, true, true, 0)); (1, (2, true, true, 0))]))].
-  split; vm_compute; reflexivity.
+  repeat split; vm_compute; reflexivity.
 Qed.
-
-(** the repaired validation: every validated genesis imports *)
-Lemma imp_nfts_total l : forall ns,
-  (forall n, In n l -> ~ In (fst n) (map fst ns)) -> NoDup (map fst l) -> imp_nfts l ns <> None.
-Proof. intros ns Hd Hnd. rewrite imp_nfts_ok by assumption. discriminate. Qed.
 
 Lemma imp_cols_total g : forall cs,
   (forall c, In c g -> ~ In (fst c) (map fst cs)) -> NoDup (map fst g) ->
@@ -109,13 +120,13 @@ Proof.
   - exact (Hd c' (or_intror Hin) Hk).
 Qed.
 
-Lemma nft_import_total_lemma g : validate true g = true -> import true g <> None.
+(** ... and any validated AND well-formed genesis imports *)
+Lemma nft_import_total_wf_lemma g : validate false g = true -> wf g = true -> import false g <> None.
 Proof.
-  intros Hv. unfold import. rewrite Hv. simpl. unfold validate in Hv.
-  apply andb_true_iff in Hv. destruct Hv as [_ Hv]. cbv iota in Hv. apply andb_true_iff in Hv. destruct Hv as [Hi0 Hi].
+  intros Hv Hw. unfold import. rewrite Hv. simpl. unfold wf in Hw. apply andb_true_iff in Hw. destruct Hw as [Hi0 Hi].
   apply imp_cols_total; [intros c _ []|apply nodupb_NoDup; exact Hi0|].
   intros c Hin. rewrite forallb_forall in Hi. specialize (Hi c Hin). apply andb_true_iff in Hi. destruct Hi as [A B].
-  split; [lia|apply nodupb_NoDup; exact B].
+  split; [unfold c_info; lia|apply nodupb_NoDup; exact B].
 Qed.
 
 Definition wit_s : state :=
